@@ -599,10 +599,12 @@ func runPlan(c *pbt.Case, p Plan) {
 			case rel == "behind" || rel == "missing":
 				want := pPos
 				if rel == "behind" && pPos.TXID-sPos.TXID > litefs.MaxBackupLTXFileN {
+					// a batch may stop short of the primary's position, but it must make
+					// progress along the primary's history
 					bigBatch = true
 					c.Label("batch-over-256")
-					if sAfter.TXID != sPos.TXID+litefs.MaxBackupLTXFileN {
-						c.Failf("C14/no-progress", "%s: the service went from %s to %s, expected %d transactions further", when, sPos, sAfter, litefs.MaxBackupLTXFileN)
+					if sAfter.TXID <= sPos.TXID || !lineage[sAfter] {
+						c.Failf("C14/no-progress", "%s: the service went from %s to %s", when, sPos, sAfter)
 					}
 				} else if sAfter != want {
 					c.Failf("C14/no-progress", "%s: the sync succeeded but the service is at %s, the primary at %s", when, sAfter, want)
